@@ -20,6 +20,11 @@ func main() {
 		os.Exit(2)
 	}
 	id := os.Args[1]
+	if wd, err := os.Getwd(); err == nil {
+		if _, err := os.Stat(filepath.Join(wd, "properties.jsonl")); err == nil {
+			mc.Root = wd // a snapshot of /verif (vp run) keeps its evidence and replays to itself
+		}
+	}
 	fs := flag.NewFlagSet("check", flag.ExitOnError)
 	tier := fs.String("tier", "", "quick|thorough")
 	replay := fs.String("replay", "", "replay file")
